@@ -1,4 +1,6 @@
 """C04: HSMS frames are bit-exact; reassembly is independent of TCP segmentation (inductive step over the receive buffer)."""
+from typing import List
+
 from engine.chx import fin, pick
 from oracles import refe37
 from rigs.park import Park, ParkCondition, BlockSink
@@ -141,6 +143,63 @@ def single_bytes(h1: bytes, b1: bytes) -> bool:
                                                    for b in p._thread.blocks) and len(p._receive_buffer) == 0)
 
 
+def tcp_receive_loop(script: List[int]) -> bool:
+    """
+    pre: 1 <= len(script) <= 4
+    pre: all(0 <= x <= 3 for x in script)
+    post: _
+    """
+    # the socket receiver loop of TcpConnection against the recv() contract: recv(n) returns 1..n of the bytes the kernel
+    # holds (here: 1, n-1 or exactly n bytes) or raises EWOULDBLOCK; every byte recv handed out must reach on_data, in order
+    import errno
+    import secsgem.common.tcp_connection as tc
+    import secsgem.hsms
+    from rigs.sock import always_writable
+
+    class Conn(tc.TcpConnection):
+        def enable(self):
+            pass
+
+        def disable(self):
+            pass
+
+    conn = Conn(secsgem.hsms.HsmsSettings())
+    handed = []
+    got = []
+
+    class Sock:
+        def __init__(self):
+            self.i = 0
+            self.n = 0
+
+        def fileno(self):
+            return 3
+
+        def recv(self, size):
+            if self.i >= len(script):
+                conn._stop_thread = True                     # nothing more will arrive: let the loop end
+                raise OSError(errno.EWOULDBLOCK, "would block")
+            kind = script[self.i]
+            self.i += 1
+            if kind == 3:
+                raise OSError(errno.EWOULDBLOCK, "would block")
+            k = pick([1, size - 1, size], kind)
+            chunk = bytes([(self.n + j) % 251 for j in range(k)])
+            self.n += k
+            handed.append(chunk)
+            return chunk
+
+        def close(self):
+            pass
+
+    conn._sock = Sock()
+    tc.select.select = lambda r, w, x, t=None: (list(r), [], [])
+    tc.format_hex = lambda d: ""
+    conn.on_data.register(lambda d: got.append(bytes(d["data"])))
+    conn._TcpConnection__receiver_thread_read_data()
+    return fin(b"".join(got) == b"".join(handed))
+
+
 _J = 17
 OBLIGATIONS = [
     dict(name="header_encode", fn="header_encode", timeout=120, functions=["HsmsHeader.__init__/encode"],
@@ -163,5 +222,11 @@ OBLIGATIONS = [
          functions=["same as reassembly_step, base case from the empty buffer"],
          bounds="two frames delivered one byte per segment (32 segments) from the empty buffer, arbitrary header, body <= 2"),
 ]
+OBLIGATIONS.append(
+    dict(name="tcp_receive_loop", fn="tcp_receive_loop", timeout=300,
+         functions=["TcpConnection.__receiver_thread_read_data (select / recv(1024) / on_data loop)"],
+         bounds="scripts of <= 4 recv outcomes: 1 byte, 1023 bytes, exactly 1024 bytes (buffer-filling read) or EWOULDBLOCK; every "
+                "byte returned by recv reaches on_data once, in order",
+         outside="the real kernel; reads of other sizes (the loop is size independent apart from the full-buffer case)"))
 ASSUMPTIONS = ["ByteQueue's Condition replaced by ParkCondition (rigs/park.py): a parked receiver is modelled by re-entry, justified by the "
                "asserted 'nothing consumed before the park'", "ProtocolDispatcher replaced by a recording sink (delivery order = queue order)"]
